@@ -221,7 +221,7 @@ def replay_scope(which, i, rb):
 
 PARSE_TEXT = {"For": "for", "In": "in", "Return": "return", "Ellipsis": "..", "Comma": ",", "Some": "some", "Every": "every", "Satisfies": "satisfies",
               "LeftBrace": "{", "RightBrace": "}", "Colon": ":", "Function": "function", "LeftParen": "(", "RightParen": ")", "LeftBracket": "[",
-              "RightBracket": "]", "If": "if", "Then": "then", "Else": "else", "Plus": "+"}
+              "RightBracket": "]", "If": "if", "Then": "then", "Else": "else", "Plus": "+", "External": "external"}
 
 NESTED = {"name": ["Name"],
           "for": ["For", "Name", "In", "Name", "Return", "Name"],
@@ -253,7 +253,7 @@ def _function(c):
     toks = ["Function", "LeftParen"]
     for j in range(c["n"]):
         toks += (["Comma"] if j else []) + ["Name"]
-    return toks + ["RightParen"] + NESTED[c["body"]]
+    return toks + ["RightParen"] + (["External"] if c.get("ext") else []) + NESTED[c["body"]]
 
 
 def _substituted(c):
@@ -270,8 +270,9 @@ PARSE_FAMILIES = {
                         [dict(q="For", body=b) for b in sorted(NESTED)] + [dict(q="Every", body="context"), dict(q="Some", body="for")]),
     "context": (dict(n=[0, 1, 2, 3], at=[0, 1, 2], value=sorted(NESTED)), _context,
                 [dict(n=0), dict(n=3, at=1, value="for"), dict(n=2, at=0, value="context"), dict(n=3, at=2, value="function"), dict(n=1, value="every")]),
-    "function": (dict(n=[0, 1, 2, 3], body=sorted(NESTED)), _function,
-                 [dict(n=0, body="name"), dict(n=3, body="for"), dict(n=2, body="context"), dict(n=1, body="function")]),
+    "function": (dict(n=[0, 1, 2, 3], body=sorted(NESTED), ext=[False, True]), _function,
+                 [dict(n=0, body="name", ext=False), dict(n=3, body="for", ext=False), dict(n=2, body="context", ext=False), dict(n=1, body="function", ext=False),
+                  dict(n=2, body="context", ext=True), dict(n=0, body="name", ext=True)]),
     "for_substituted": (dict(base=[["For", "Name", "In", "Name", "Comma", "Name", "In", "Name", "Return", "Name"]], pos=list(range(10)), tok=SUBST), _substituted,
                         [dict(pos=0, tok="For"), dict(pos=5, tok="Name"), dict(pos=8, tok="Return")]),
     "context_substituted": (dict(base=[["LeftBrace", "Name", "Colon", "For", "Name", "In", "Name", "Return", "Name", "RightBrace"]], pos=list(range(10)), tok=SUBST),
